@@ -521,6 +521,9 @@ func (rn *runner) iterOracles(f []string, res string) {
 		rev = f[1] == "1"
 		lo, hi = dec(f[2]), dec(f[3])
 	}
+	if !strings.HasPrefix(res, "kv:") && !strings.HasPrefix(res, "kfv:") {
+		return // a panicking iterator is reported by the comparisons, not by this oracle
+	}
 	body := res[strings.IndexByte(res, ':')+1:]
 	if body == "" {
 		return
